@@ -54,6 +54,11 @@ prop('C16', prefix=['c16'],
             'columns 1..=30 (offsets of either sign), same or other target sheet, reference on the cut sheet or another; ranges with absolute corners',
      outside='the moved-formula printer for operators, functions, arrays and separators (known to drop parentheses), paste orchestration in clipboard.rs, '
              'conditional-format ranges and defined names under cut, values, the parser that builds the nodes')
+prop('C19', prefix=['c19'],
+     bounds='parse_number: every ASCII string of length <=5 with . and , as separators, <=4 with , and . (<=7 thorough); parse_formatted_number: '
+            'body%, $body, -$body, body$ and plain body for every printable-ASCII body (no white space, no /) of length <=3 (<=4 thorough), en separators, currency $',
+     outside='the numeric value of a digit string (f64::from_str: validity is its documented grammar, the value is uninterpreted), dates, white space '
+             'handling, non-ASCII currency symbols and separators, what Model::set_user_input does with the result')
 prop('C22', prefix=['c22'],
      bounds='all 16384 column numbers (one symbolic i32); every ASCII column string of length 0..=4',
      outside='A1/R1C1 printing+parsing of whole references, sheet-name quoting vs the lexer, non-ASCII text')
